@@ -110,7 +110,11 @@ fn gen_history(r: &mut Rng, len: usize, with_parse: bool) -> Vec<Op> {
     for _ in 0..len {
         // in the histories that parse, one call in eight is a parse (half of them fail half-way)
         let k = if with_parse && r.chance(1, 8) { 99 } else { r.below(100) };
-        let s = if r.chance(1, 6) { random_text(r, 4) } else { random_ident(r) };
+        // one string in five is a near-duplicate of a built-in or of a pool string: another case, a blank at either end, the
+        // same character composed and decomposed — strings that differ must get different ids, whatever they look like
+        const NEAR: &[&str] = &["XML", "Xml", "xmL", "xmlns", "XMLNS", "ID", "Id", "SPACE", "Space", "a ", " a", "FOO", "Foo",
+            "e\u{301}", "\u{c9}", "N0", "P", "Q", "X", "xml ", " xml", "xml\t"];
+        let s = if r.chance(1, 6) { random_text(r, 4) } else if r.chance(1, 5) { r.pick(NEAR).to_string() } else { random_ident(r) };
         let op = match k {
             0..=24 => {
                 let ns = *r.pick(&ids.nss);
